@@ -14,6 +14,7 @@ import (
 	"math/rand"
 	"os"
 	"path/filepath"
+	"runtime/debug"
 	"sort"
 	"strconv"
 	"strings"
@@ -161,7 +162,12 @@ func (e *env) path(fno int) string {
 	return filepath.Join(e.dir, family, version.Table(table.FileNumber(fno)))
 }
 
+// guard runs f and turns a panic into a result. A read of unmapped memory (a reader or a pooled
+// decoder still pointing into a table file that was unmapped by Close) is an ordinary, reportable
+// panic too instead of a fatal SIGSEGV that would end the run without a failing input.
 func guard(f func()) (panicked bool, msg string) {
+	old := debug.SetPanicOnFault(true)
+	defer debug.SetPanicOnFault(old)
 	defer func() {
 		if r := recover(); r != nil {
 			panicked = true
